@@ -193,12 +193,60 @@ impl<M: GuestMemory> ObjAccess for M {
 
 /// Executes `op` on the real memory. Returns the classified result and, for read routes with a
 /// caller-visible buffer, the complete buffer afterwards (prefilled with 0xEE).
+/// A local buffer of `len` bytes at a chosen address class modulo 8, between canaries.
+struct Padded {
+    store: Vec<u8>,
+    at: usize,
+    len: usize,
+}
+
+impl Padded {
+    fn new(len: usize, mis: usize, fill: &[u8]) -> Padded {
+        let mut store = vec![0xC3u8; len + 32];
+        let at = (8 - store.as_ptr() as usize % 8) % 8 + 8 + mis % 8;
+        if fill.is_empty() {
+            store[at..at + len].fill(0xEE);
+        } else {
+            store[at..at + len].copy_from_slice(fill);
+        }
+        Padded { store, at, len }
+    }
+    fn get(&self) -> &[u8] {
+        &self.store[self.at..self.at + self.len]
+    }
+    fn get_mut(&mut self) -> &mut [u8] {
+        &mut self.store[self.at..self.at + self.len]
+    }
+    /// the buffer contents, followed by a marker if a byte around it changed
+    fn result(&self) -> Vec<u8> {
+        let mut v = self.get().to_vec();
+        if self.store[..self.at].iter().chain(&self.store[self.at + self.len..]).any(|b| *b != 0xC3) {
+            v.extend_from_slice(b"<bytes outside the caller's buffer were overwritten>");
+        }
+        v
+    }
+}
+
 pub fn exec<M: GuestMemory>(m: &M, op: &Op) -> (Out, Vec<u8>) {
     let a = GuestAddress(op.addr);
     let data = op.data();
+    // address class of the local buffer: relative to the class of the guest byte's host address,
+    // equal, shifted by the length, or shifted by one (rotating with the operation)
+    let g = m.get_host_address(a).map(|p| p as usize % 8).unwrap_or(op.addr as usize % 8);
+    let mis = match (op.addr as usize).wrapping_add(op.len).wrapping_add(op.tag as usize) % 3 {
+        0 => g,
+        1 => (g + op.len) % 8,
+        _ => (g + 1) % 8,
+    };
     match op.route {
-        Route::Write => (cls(m.write(&data, a), Out::Count), vec![]),
-        Route::WriteSlice => (cls(m.write_slice(&data, a), |_| Out::Unit), vec![]),
+        Route::Write => {
+            let src = Padded::new(data.len(), mis, &data);
+            (cls(m.write(src.get(), a), Out::Count), vec![])
+        }
+        Route::WriteSlice => {
+            let src = Padded::new(data.len(), mis, &data);
+            (cls(m.write_slice(src.get(), a), |_| Out::Unit), vec![])
+        }
         Route::WriteObj => {
             (m.write_obj_bytes(&data, op.len, a), vec![])
         }
@@ -228,14 +276,14 @@ pub fn exec<M: GuestMemory>(m: &M, op: &Op) -> (Out, Vec<u8>) {
             (r, vec![])
         }
         Route::Read => {
-            let mut buf = vec![0xEEu8; op.len];
-            let r = cls(m.read(&mut buf, a), Out::Count);
-            (r, buf)
+            let mut buf = Padded::new(op.len, mis, &[]);
+            let r = cls(m.read(buf.get_mut(), a), Out::Count);
+            (r, buf.result())
         }
         Route::ReadSlice => {
-            let mut buf = vec![0xEEu8; op.len];
-            let r = cls(m.read_slice(&mut buf, a), |_| Out::Unit);
-            (r, buf)
+            let mut buf = Padded::new(op.len, mis, &[]);
+            let r = cls(m.read_slice(buf.get_mut(), a), |_| Out::Unit);
+            (r, buf.result())
         }
         Route::ReadObj => m.read_obj_bytes(op.len, a),
         Route::WriteTo => {
